@@ -245,6 +245,19 @@ func main() {
 			s = vlib.UnionSolid(a, b)
 		}
 		iters := rng.Intn(4)
+		if c.Index%2 == 1 {
+			// large coarse/fine ratios on boxes: the coarse mesh chamfers sharp edges by up to a
+			// coarse cell, which the dilated coarse mesh still has to cover (sides >= 3 coarse cells)
+			ratio := []int{8, 12, 16, 24}[rng.Intn(4)]
+			big = 0.25 + 0.1*rng.Float64()
+			small = big / float64(ratio)
+			lo := model3d.XYZ(rng.Float64(), rng.Float64(), rng.Float64())
+			s = vlib.BoxSolid(lo, lo.Add(model3d.XYZ(big*(3+rng.Float64()), big*(3+rng.Float64()), big*(3+rng.Float64()))))
+			if rng.Intn(2) == 0 {
+				iters = 0
+			}
+			c.Count("mc.c2f.comparisons_with_ratio_8_to_24", 1)
+		}
 		p := []int{1, 3, 8, 16}[rng.Intn(4)]
 		wit := map[string]interface{}{"solid": s.Desc, "big": big, "small": small, "iters": iters, "gomaxprocs": p}
 		var ref, got []vlib.Tri
